@@ -500,6 +500,10 @@ func runStallCase(lg *vlog, rep *vreport, rng *vrng) {
 	pauseFrom, pauseLen := rng.intn(30), 10+rng.intn(200)
 	lossFrom, lossLen := pauseFrom+rng.intn(pauseLen), rng.intn(150)
 	useUpdate := rng.chance(30)
+	longStall := rng.chance(25)
+	if longStall {
+		s.stats["long-stall-cases"]++
+	}
 	mss := int(s.k[0].mss)
 	for tick := 0; tick < pauseFrom+pauseLen+40 && !s.dead; tick++ {
 		for sent < total && s.k[0].WaitSnd() < 2*int(s.k[0].snd_wnd)+4 && !s.dead {
@@ -562,7 +566,11 @@ func runStallCase(lg *vlog, rep *vreport, rng *vrng) {
 			s.stats["reader-stalled-ticks"]++
 			// no unbounded buffering while stalled (C04 monitors run after every op)
 		}
-		s.setNow(s.now + uint32(rng.pick(1, 10, cfg.Interval[0], 500, 1000)))
+		if longStall { // minutes of standstill: the probe back-off reaches its 120 s cap, rto its 60 s cap
+			s.setNow(s.now + uint32(rng.pick(1000, 7000, 30000, 60000, 130000)))
+		} else {
+			s.setNow(s.now + uint32(rng.pick(1, 10, cfg.Interval[0], 500, 1000)))
+		}
 	}
 	if !s.dead {
 		s.healAndCheck(900000, useUpdate)
